@@ -13,3 +13,23 @@ timeout 600 java -Xss1g -Xmx6g -cp $CP tlc2.TLC -workers 8 -metadir ../out/tlc-m
   -config MCBlinding_std.cfg MCBlinding.tla | tail -4
 TRACE=../out/blinding.ndjson timeout 600 java -Xss1g -Xmx4g -cp $CP tlc2.TLC -workers 1 -metadir ../out/tlc-mcbt \
   -cleanup -noGenerateSpecTE -config BlindingTrace.cfg BlindingTrace.tla | grep -A8 BLINDING
+# canaries: blinding that forgets the final polynomial / treats Z like a wire polynomial must violate Hides
+for m in no_final_poly z_single; do
+  timeout 300 java -Xss1g -Xmx4g -cp $CP tlc2.TLC -workers 4 -metadir ../out/tlc-mcbc -cleanup -noGenerateSpecTE \
+    -config MCBlinding_canary_$m.cfg MCBlinding.tla | grep -q 'Invariant HidesInv is violated' \
+    || { echo "canary $m not caught"; exit 2; }
+done
+# binding demonstration: one recorded degree changed by one must be rejected by the trace specification
+python3 - <<'PY'
+import json
+rows = [json.loads(l) for l in open('../out/blinding.ndjson')]
+rows[len(rows) // 2]['deg_bits'] += 1
+open('../out/blinding_corrupt.ndjson', 'w').write(''.join(json.dumps(r) + '\n' for r in rows))
+PY
+if TRACE=../out/blinding_corrupt.ndjson timeout 600 java -Xss1g -Xmx4g -cp $CP tlc2.TLC -workers 1 -metadir ../out/tlc-mcbt \
+  -cleanup -noGenerateSpecTE -config BlindingTrace.cfg BlindingTrace.tla | grep -q 'Assumption.*is false'; then
+  echo "corrupted trace rejected (binding demonstrated)"
+else
+  echo "corrupted trace NOT rejected"; exit 2
+fi
+echo "blinding_check: ok"
